@@ -18,6 +18,6 @@ def harnesses(tier):
         {'name': 'step-N3-W2-all', 'fn': graph.h_step,
          'cfg': {'prop': 'C05', 'N': 3, 'nW': 2, 'seqlen': 3, 'ops': graph.ALL_OPS}},
         {'name': 'attach-N4-W1', 'fn': graph.h_step,
-         'cfg': {'prop': 'C05', 'N': 4, 'nW': 1, 'seqlen': 2, 'ops': graph.ATTACH_OPS}},
+         'cfg': {'prop': 'C05', 'N': 4, 'nW': 1, 'seqlen': 1, 'ops': graph.ATTACH_OPS}},
         {'name': 'lookup-N5', 'fn': graph.h_lookup, 'cfg': {'N': 5, 'nW': 1}},
     ]
